@@ -15,6 +15,11 @@ pub struct Shared {
     pub faults_fired: Mutex<BTreeMap<&'static str, u64>>,
     /// (probe id, argument) pairs of the keyed "loss.*" probes.
     pub keyed: Mutex<std::collections::BTreeSet<(&'static str, u64)>>,
+    /// Ordered log of what maintenance applied: (kind, incarnation = EntryInfo address);
+    /// kind 0 = a recorded read hit, 1 = a recorded write (insert/update), 2 = a node
+    /// rotated to the MRU end without a use (skipped victim / dirty entry met by the
+    /// size-based eviction).
+    pub applied: Mutex<Vec<(u8, u64)>>,
 }
 
 impl Shared {
@@ -173,6 +178,12 @@ impl Hooks for SimHooks {
         if id.starts_with("loss") {
             self.shared.keyed.lock().unwrap().insert((id, _arg));
         }
+        match id {
+            "apply.hit" => self.shared.applied.lock().unwrap().push((0, _arg)),
+            "apply.upsert" => self.shared.applied.lock().unwrap().push((1, _arg)),
+            "rotate" => self.shared.applied.lock().unwrap().push((2, _arg)),
+            _ => {}
+        }
     }
 }
 
@@ -188,4 +199,58 @@ pub fn resolve_keyed(shared: &Shared, mode: crate::types::HashMode, keys: &[u16]
         }
     }
     out
+}
+
+/// C12 on the concurrent cache, "with respect to the order in which maintenance applied the
+/// recorded reads and writes": at a quiescent point (both queues empty) the residents must
+/// sit in the access-order deque in the order of their last applied use. Entries that were
+/// rotated without a use since their last applied use (in-flux victims, dirty entries met
+/// by the size-based eviction) are left out. Returns (pairs compared, first misordering).
+pub fn check_applied_order(shared: &Shared, snap: &mini_moka::verif::Snapshot) -> (u64, Option<String>) {
+    let log = shared.applied.lock().unwrap();
+    let mut last_use: BTreeMap<u64, usize> = BTreeMap::new();
+    let mut rotated: BTreeMap<u64, usize> = BTreeMap::new();
+    for (i, (kind, info)) in log.iter().enumerate() {
+        if *kind == 2 {
+            rotated.insert(*info, i);
+        } else {
+            last_use.insert(*info, i);
+        }
+    }
+    let resident: BTreeMap<u64, u64> = snap
+        .entries
+        .iter()
+        .filter(|e| e.admitted && e.has_ao_node && e.info != 0 && !e.dirty)
+        .map(|e| (e.info as u64, e.key))
+        .collect();
+    let mut prev: Option<(usize, u64)> = None;
+    let mut compared = 0u64;
+    for n in &snap.probation {
+        let info = n.info as u64;
+        let key = match resident.get(&info) {
+            Some(k) => *k,
+            None => continue,
+        };
+        let lu = match last_use.get(&info) {
+            Some(i) => *i,
+            None => continue,
+        };
+        if rotated.get(&info).map(|r| *r > lu).unwrap_or(false) {
+            continue;
+        }
+        if let Some((plu, pkey)) = prev {
+            compared += 1;
+            if plu > lu {
+                return (
+                    compared,
+                    Some(format!(
+                        "key {} (last use applied as record #{}) sits closer to the MRU end than key {} (last use applied as record #{}): the access-order deque does not reflect the order in which maintenance applied the recorded reads and writes",
+                        key, lu, pkey, plu
+                    )),
+                );
+            }
+        }
+        prev = Some((lu, key));
+    }
+    (compared, None)
 }
